@@ -133,10 +133,23 @@ Cdpaths ==
          "/a/l:/", "/:/a", "../d", "/a/b">>
 WithCdpath == Cross3(CdpathOperands, Cdpaths, LP, LAMBDA a, c, o : CdStep(Pre("/d", c), o, <<a>>))
 
+\* the manual's long option names
+Long ==
+  Cross3(<<"b", "/l/c", "..">>,
+         <<<<"--logical">>, <<"--physical">>, <<"--physical", "--ensure-pwd">>, <<"-L", "--physical">>, <<"--nosuch">>>>,
+         <<0>>, LAMBDA a, o, z : CdStep(Pre("/d", ""), o, <<a>>))
+  \o <<[pre |-> Pre("/d", ""), k |-> "pwd", opts |-> <<"--physical">>, args |-> <<>>],
+       [pre |-> Pre("/d", ""), k |-> "pwd", opts |-> <<"--logical">>, args |-> <<>>]>>
+
+\* PWD / OLDPWD made read-only just before
+Readonly ==
+  Cross3(<<"b", "/l", "..", "nx", "/a/m/..">>, <<<<"PWD">>, <<"OLDPWD">>, <<"PWD", "OLDPWD">>>>, LP,
+         LAMBDA a, v, o : CdStep(Pre("/d", "") \o [i \in 1..Len(v) |-> <<"readonly", v[i]>>], o, <<a>>))
+
 Pwds == <<PwdStep(<<>>, <<>>), PwdStep(<<"-L">>, <<>>), PwdStep(<<"-P">>, <<>>), PwdStep(<<"-LP">>, <<>>),
           PwdStep(<<"-P", "-L">>, <<>>), PwdStep(<<"--">>, <<>>), PwdStep(<<>>, <<"x">>)>>
 
-Fan == Base \o Options \o NoOperand \o Minus \o Odd \o WithCdpath \o Pwds
+Fan == Base \o Options \o NoOperand \o Minus \o Odd \o WithCdpath \o Long \o Readonly \o Pwds
 
 (***************************************************************************)
 (* Exploration.                                                            *)
@@ -154,7 +167,7 @@ Next ==
   /\ \E i \in 1..Len(Fan) :
        LET R == Step(T, S, Fan[i]) IN
        /\ Fan[i].k = "cd"
-       /\ R.st = <<0, 0>> /\ ~R.unspec
+       /\ R.st = <<0, 0>> /\ ~R.unspec /\ R.S.ro = {}
        /\ S' = R.S
        /\ w' = Append(w, Fan[i])
   /\ UNCHANGED <<tid, start>>
@@ -181,6 +194,7 @@ StepTheorems(step) ==
   IN IF step.k = "pwd" THEN R.S = S1
      ELSE /\ ThmSuccess(T, S1, ModeOf(Letters(step.opts)), R)
           /\ ThmFailure(S1, R)
+          /\ ThmReadonly(T, S1, step.opts, step.args, R)
           /\ (step.args = <<"-">> => ThmSwap(T, S1, R))
 
 StateTheorems ==
